@@ -271,6 +271,13 @@ func (p *Property) defaults() {
 }
 
 func scratchBase() string {
+	// a child works below its parent's scratch directory, so that the parent's clean-up also covers children that
+	// died without running theirs (race-detector exits, fatal errors, kills)
+	if d := os.Getenv("VERIF_SCRATCH_PARENT"); d != "" {
+		if st, err := os.Stat(d); err == nil && st.IsDir() {
+			return d
+		}
+	}
 	for _, d := range []string{"/dev/shm", os.Getenv("TMPDIR"), os.TempDir()} {
 		if d == "" {
 			continue
@@ -663,7 +670,7 @@ func runChild(p *Property, tier string, seed int64, scratch, tag string, cases [
 	cmd := exec.Command(os.Args[0], "-child", "-prop", p.ID, "-tier", tier, "-seed", fmt.Sprint(seed), "-batch", bf, "-out", of, "-case-timeout", caseTimeout.String())
 	cmd.Stdout = lf
 	cmd.Stderr = lf
-	cmd.Env = os.Environ()
+	cmd.Env = append(os.Environ(), "VERIF_SCRATCH_PARENT="+scratch)
 	for _, e := range p.ChildEnv {
 		cmd.Env = append(cmd.Env, strings.ReplaceAll(strings.ReplaceAll(e, "{SCRATCH}", scratch), "{TAG}", tag))
 	}
